@@ -182,7 +182,11 @@ func (resp *HTTPResponse) FromBytes(data []byte) (err error) {
 	if err != nil {
 		return
 	}
-	resp.CompressSrv = string(buffer.Next(size))
+	buf, err := readBytes(buffer, size)
+	if err != nil {
+		return
+	}
+	resp.CompressSrv = string(buf)
 
 	resp.CompressMinLength, err = readUint32ToInt(buffer)
 	if err != nil {
@@ -193,7 +197,11 @@ func (resp *HTTPResponse) FromBytes(data []byte) (err error) {
 	if err != nil {
 		return
 	}
-	contentTypeFilter := string(buffer.Next(size))
+	buf, err = readBytes(buffer, size)
+	if err != nil {
+		return
+	}
+	contentTypeFilter := string(buf)
 	if contentTypeFilter != "" {
 		resp.CompressContentTypeFilter, err = regexp.Compile(contentTypeFilter)
 		if err != nil {
@@ -205,7 +213,10 @@ func (resp *HTTPResponse) FromBytes(data []byte) (err error) {
 	if err != nil {
 		return
 	}
-	headerBuf := buffer.Next(size)
+	headerBuf, err := readBytes(buffer, size)
+	if err != nil {
+		return
+	}
 	err = json.Unmarshal(headerBuf, &resp.Header)
 	if err != nil {
 		return
@@ -220,19 +231,28 @@ func (resp *HTTPResponse) FromBytes(data []byte) (err error) {
 	if err != nil {
 		return
 	}
-	resp.GzipBody = buffer.Next(size)
+	resp.GzipBody, err = readBytes(buffer, size)
+	if err != nil {
+		return
+	}
 
 	size, err = readUint32ToInt(buffer)
 	if err != nil {
 		return
 	}
-	resp.BrBody = buffer.Next(size)
+	resp.BrBody, err = readBytes(buffer, size)
+	if err != nil {
+		return
+	}
 
 	size, err = readUint32ToInt(buffer)
 	if err != nil {
 		return
 	}
-	resp.RawBody = buffer.Next(size)
+	resp.RawBody, err = readBytes(buffer, size)
+	if err != nil {
+		return
+	}
 
 	return
 }
